@@ -62,7 +62,7 @@ class DensityMatrixEvolution(MatrixData, BasisManaged, Saveable):
 
         ti, dt = self.TimeAxis.locate(time)
 
-        return DensityMatrix(data=self.data[ti, :, :])
+        return DensityMatrix(data=self.data[ti, :, :].copy())
 
 
     def transform(self, SS, inv=None):
@@ -315,5 +315,5 @@ class ReducedDensityMatrixEvolution(DensityMatrixEvolution):
 
         ti, dt = self.TimeAxis.locate(time)
 
-        return ReducedDensityMatrix(data=self.data[ti, :, :])
+        return ReducedDensityMatrix(data=self.data[ti, :, :].copy())
 
